@@ -118,3 +118,32 @@ package rlp
 //@   assigns rlp_lastbytes, inferred
 //@ func decodeBigInt
 //@   ensures[C11] @canonint result == nil ==> len(as(rlp_lastbytes, "[]byte")) == 0 || as(rlp_lastbytes, "[]byte")[0] != 0
+
+// A decoder that reports success has consumed its value: the stream is re-armed for the next one
+// (kind == -1), for every kind of input (single byte, string, and never for a list).
+//@ func decodeByteArray
+//@   requires s != nil && s.kind >= -1 && s.kind <= 2
+//@   ensures[C11] @consumed result == nil ==> s.kind == -1
+//@ func Stream.willRead
+//@   requires s != nil
+//@   ensures[C11] @rearm s.kind == -1
+//@ func Stream.readFull
+//@   requires s != nil
+//@   ensures[C11] @rearm s.kind == -1
+//@   loop 1 invariant[C11] s.kind == -1
+//@ func Stream.readByte
+//@   requires s != nil
+//@   ensures[C11] @rearm s.kind == -1
+//@ func Stream.readUint
+//@   requires s != nil
+//@   ensures[C11] @rearm s.kind == -1
+//@ func Stream.uint
+//@   requires s != nil
+//@   ensures[C11] @rearm result1 == nil ==> s.kind == -1
+// The cached kind of a stream is -1 (re-armed) or one of Byte, String, List; Kind reports it.
+//@ func Stream.readKind
+//@   requires s != nil
+//@   ensures[C11] @kinds err == nil ==> kind == Byte || kind == String || kind == List
+//@ func Stream.Kind
+//@   requires s != nil && s.kind >= -1 && s.kind <= 2
+//@   ensures[C11] @kinds err == nil ==> (kind == Byte || kind == String || kind == List) && s.kind == kind
